@@ -16,6 +16,25 @@ def kids(node):
     return [k for k in node.get("inner", []) if isinstance(k, dict) and k.get("kind")]
 
 
+def product_factors(node):
+    """Top-level factors of an expression tree: [node] unless its root (under casts/parentheses) is a `*`.  Decides
+    "weight * X" on the syntax tree - the text `w * a ? b : c` starts with `w *` but is a conditional on `w * a`."""
+    n = c_strip(node)
+    while n.get("kind") == "ParenExpr":
+        n = c_strip(kids(n)[0])
+    if n.get("kind") == "BinaryOperator" and n.get("opcode") == "*":
+        a, b = kids(n)
+        return product_factors(a) + product_factors(b)
+    return [n]
+
+
+def weighted_by(node, name):
+    """The expression is a product one of whose top-level factors is the variable `name`."""
+    fs = product_factors(node)
+    return len(fs) >= 2 and any(f.get("kind") == "DeclRefExpr" and f["referencedDecl"]["name"] == name for f in fs) or \
+        (len(fs) == 1 and fs[0].get("kind") == "DeclRefExpr" and fs[0]["referencedDecl"]["name"] == name)
+
+
 def var_decls(compound):
     """Top-level VarDecl nodes of a compound statement: [(name, decl, init or None, stmt)]."""
     out = []
